@@ -450,11 +450,105 @@ fn one_world(ctx: &mut Ctx, rng: &mut Rng) {
     ctx.sample("world", || json!({"rules": rules.iter().map(|(_, e)| show_expr(e)).collect::<Vec<_>>(), "input": format!("{in_a:?}"), "outcomes": format!("{:?}", ba.outcomes), "polls_with_suspension": pa}));
 }
 
+/// A ruleset whose first rule is one flat list of `n` items (literals, references, symbols and a few calls of suspending
+/// functions), i.e. an evaluation that visits far more nodes than any small world: straight run, suspended run,
+/// two interleaved evaluations and a drop midway must all behave like the straight run.
+fn large_world(ctx: &mut Ctx, rng: &mut Rng, n: usize) {
+    let every = (n / 23).max(1);
+    let items: Vec<Expr> = (0..n)
+        .map(|i| {
+            if i % every == 3 {
+                Expr::func(*rng.pick(&["s1", "s2", "n1"]), Expr::value((i % 5) as i128))
+            } else {
+                match i % 4 {
+                    0 => Expr::value(i as i128),
+                    1 => Expr::symbol("sym"),
+                    2 => Expr::value(i % 3 == 0),
+                    _ => Expr::value("s".to_string()),
+                }
+            }
+        })
+        .collect();
+    let mut entries = BTreeMap::new();
+    for i in 0..n / 4 {
+        entries.insert(format!("k{i:06}"), if i % 997 == 5 { Expr::func("s1", Expr::value(1)) } else { Expr::value(i as i128) });
+    }
+    let rules: Vec<(String, Expr)> = vec![("r0".to_string(), Expr::Vec(items)), ("r1".to_string(), Expr::func("s1", Expr::value(1))), ("r2".to_string(), Expr::Map(entries)), ("r3".to_string(), Expr::add(Expr::func("n1", Expr::value(2)), Expr::value(1)))];
+    let input = Value::Map([("a".to_string(), Value::Int(1))].into_iter().collect());
+    ctx.begin(|| format!("large-world\t{n} items"));
+    let w0 = world(&rules, &[0, 0, 0, 0]);
+    let small: Vec<(String, Expr)> = vec![("r0".into(), Expr::value(format!("flat list of {n} items, map of {} entries", n / 4)))];
+    let base = match baseline(&w0, &input) {
+        Ok(b) => b,
+        Err(p) => return violation(ctx, "evaluation-panicked", p, &small, json!(null)),
+    };
+    ctx.count();
+    ctx.hit(&format!("large:items{}", n));
+    ctx.nontrivial(fnv(format!("large|{n}").as_bytes()));
+    let w = world(&rules, &[1, 2, 1, 0]);
+    match baseline(&w, &input) {
+        Ok(b) if b.outcomes == base.outcomes && b.log == base.log => {
+            ctx.hit("large:suspended-agrees");
+            let polls = b.polls;
+            // two evaluations interleaved at random, and one dropped midway followed by a fresh one
+            let mut s: Vec<usize> = std::iter::repeat(0).take(polls).chain(std::iter::repeat(1).take(polls)).collect();
+            rng.shuffle(&mut s);
+            ctx.count();
+            match drive(&w, &[&input, &input], &s, &[None, None]) {
+                Ok((outs, logs, _)) => {
+                    if outs[0].as_ref() != Some(&base.outcomes) || outs[1].as_ref() != Some(&base.outcomes) || logs[0] != base.log || logs[1] != base.log {
+                        return violation(ctx, "outcome-depends-on-interleaving", format!("two interleaved evaluations of a ruleset with a {n}-item rule"), &small, json!({"schedule": s}));
+                    }
+                    ctx.hit("large:interleaved-agrees");
+                }
+                Err(p) => return violation(ctx, "evaluation-panicked", p, &small, json!(null)),
+            }
+            let j = 1 + rng.below(polls.max(2) - 1);
+            let sched: Vec<usize> = std::iter::repeat(0).take(j).collect();
+            ctx.count();
+            match drive(&w, &[&input, &input], &sched, &[Some(j), None]) {
+                Ok((outs, logs, _)) => {
+                    if outs[1].as_ref() != Some(&base.outcomes) || logs[1] != base.log {
+                        return violation(ctx, "outcome-depends-on-an-abandoned-evaluation", format!("a {n}-item evaluation was dropped after {j} polls; the next one differs"), &small, json!(null));
+                    }
+                    ctx.hit("large:fresh-after-drop-agrees");
+                }
+                Err(p) => return violation(ctx, "evaluation-panicked", p, &small, json!(null)),
+            }
+        }
+        Ok(b) => return violation(ctx, "outcome-depends-on-suspension-count", format!("a ruleset with a {n}-item rule evaluates differently when its functions suspend"), &small, json!({"unsuspended_log": base.log, "suspended_log": b.log, "same_outcomes": b.outcomes == base.outcomes})),
+        Err(p) => return violation(ctx, "evaluation-panicked", p, &small, json!(null)),
+    }
+    lost_wakeups(ctx, &small);
+}
+
+/// The evaluation future must arrange its own wake-up whenever it returns Pending (every suspension the harness creates calls the waker
+/// before returning Pending, so a Pending without a wake comes from the evaluator itself): otherwise the outcome — whether there is one
+/// at all — depends on whether the executor polls spuriously.
+fn lost_wakeups(ctx: &mut Ctx, rules: &[(String, Expr)]) {
+    let lost = crate::exec::take_lost_wakeups();
+    ctx.hit("wake-monitor:checked");
+    if lost > 0 {
+        violation(ctx, "pending-without-a-wake-up", format!("{lost} poll(s) of an evaluation returned Pending although nothing had called the waker: an executor that polls on wake-up never completes this evaluation"), rules, json!({"polls_without_wake": lost}));
+    }
+}
+
 fn run(ctx: &mut Ctx) {
     let mut rng = ctx.rng.clone();
+    let _ = crate::exec::take_lost_wakeups();
+    for n in [9_000usize, 20_000, 70_000, 300_000].into_iter().take(ctx.tier.of(3, 4)) {
+        if ctx.mine() {
+            large_world(ctx, &mut rng.clone(), n);
+        }
+    }
+    for _ in 0..ctx.tier.of(1, 3) {
+        let n = 8_000 + rng.below(60_000);
+        large_world(ctx, &mut rng, n);
+    }
     let n = ctx.tier.of(2_000, 8_000);
     for _ in 0..n {
         one_world(ctx, &mut rng);
+        lost_wakeups(ctx, &[]);
     }
     ctx.rng = rng;
 }
@@ -469,6 +563,8 @@ fn finish(m: &Merged, tier: Tier) -> Finish {
     f.floors.push(floor(format!("distinct (ruleset, schedule) pairs: {}", m.distinct_nontrivial), m.distinct_nontrivial >= tier.of(100_000, 1_000_000)));
     f.floors.push(floor(format!("interleavings with at least one switch: {}", m.c("interleavings-with-a-switch")), m.c("interleavings-with-a-switch") >= tier.of(50_000, 1_000_000)));
     f.floors.push(floor(format!("evaluations dropped midway: {}", m.c("cancel:dropped-midway")), m.c("cancel:dropped-midway") >= tier.of(20_000, 80_000)));
+    f.floors.push(floor(format!("large evaluations (>= 8000 nodes) that agreed under suspension / interleaving / drop: {} / {} / {}", m.c("large:suspended-agrees"), m.c("large:interleaved-agrees"), m.c("large:fresh-after-drop-agrees")), m.c("large:fresh-after-drop-agrees") >= 16));
+    f.floors.push(floor(format!("wake-monitor checks: {}", m.c("wake-monitor:checked")), m.c("wake-monitor:checked") >= 1_000));
     f.floors.push(floor(format!("cancellation indices seen: {}", m.prefix_count("cancel:after-polls")), m.prefix_count("cancel:after-polls") >= 5));
     f.extras.insert("interleavings_by_switches".into(), json!(m.prefix_map("interleave:")));
     f.extras.insert("cancellation_points_seen".into(), json!(m.prefix_map("cancel:")));
